@@ -2,6 +2,7 @@ package schist
 
 import (
 	"context"
+	"errors"
 	"flag"
 	"fmt"
 	"os"
@@ -32,9 +33,17 @@ import (
 
 type nopBSH struct{}
 
-func (nopBSH) SaveMagicBlock() chain.MagicBlockSaveFunc { return nil }
+func (nopBSH) SaveMagicBlock() chain.MagicBlockSaveFunc                                        { return nil }
 func (nopBSH) UpdatePendingBlock(ctx context.Context, b *block.Block, txns []datastore.Entity) {}
-func (nopBSH) UpdateFinalizedBlock(ctx context.Context, b *block.Block) error { return nil }
+func (nopBSH) UpdateFinalizedBlock(ctx context.Context, b *block.Block) error                  { return nil }
+
+// failBSH makes the last step of a finalization fail (a sharder's block store or a miner's round bookkeeping refusing the block):
+// the state has been saved and the dead nodes recorded by then, the round is reset and the block is not the LFB.
+type failBSH struct{ nopBSH }
+
+func (failBSH) UpdateFinalizedBlock(ctx context.Context, b *block.Block) error {
+	return errors.New("verif: injected UpdateFinalizedBlock failure")
+}
 
 // PruneMain is the entry point of the prune engine.
 func PruneMain(args []string) int {
@@ -203,6 +212,10 @@ func pruneChild(prop, tier string, idx, nb int) int {
 	}
 	for h.Round < int64(nb) {
 		k := 1 + r.Intn(3)
+		refinal := h.Round > 3 && r.Chance(0.12)
+		if refinal && r.Chance(0.7) {
+			k = 0 // the block that is finalized in the end carries no state change
+		}
 		for i := 0; i < k; i++ {
 			op := ops[r.Pick(wts)]
 			cl := op.Build(h, r)
@@ -214,9 +227,34 @@ func pruneChild(prop, tier string, idx, nb int) int {
 				h.S.Accepted = append(h.S.Accepted, ob.Txn)
 			}
 		}
+		if k == 0 && h.BC == nil {
+			h.openBlock() // a block without transactions: same state as its parent
+		}
 		h.EndBlock()
 		if h.Head.Round <= lastFinal {
 			continue
+		}
+		if refinal && h.Head.Round == lastFinal+1 {
+			// a round finalized twice: first a sibling block (another generator's proposal for the same round, with its own state
+			// changes) whose finalization fails at its last step after its state and dead nodes were written, then the block of
+			// the main chain. The round's bookkeeping in the node DB has to end up describing the block that IS finalized.
+			if sib := h.forkSibling(r, ops, wts, nil); sib != nil && sib.Round == h.Head.Round && sib.ClientState != nil {
+				rd := round.NewRound(sib.Round)
+				c.SetRandomSeed(rd, sib.GetRoundRandomSeed())
+				c.AddRound(rd)
+				sib.RoundRank = 0
+				sib.SetBlockState(block.StateNotarized)
+				c.AddBlock(sib)
+				err := c.VerifFinalizeBlockProcess(ctx, sib, failBSH{})
+				if err == nil || c.GetLatestFinalizedBlock().Hash == sib.Hash {
+					run.Inconclusive(fmt.Sprintf("injected finalization failure at round %d did not fail (err=%v)", sib.Round, err))
+					break
+				}
+				run.Count("failed_sibling_finalizations", 1)
+				if len(h.Head.Txns) == 0 {
+					run.Count("rounds_refinalized_with_state_unchanged_block", 1)
+				}
+			}
 		}
 		if !finalizePending() {
 			break
